@@ -84,10 +84,14 @@ def run_pipeline(tier, seed, log=print):
         l1dir = os.path.join(common.WORK, "l1cache")
         os.makedirs(l1dir, exist_ok=True)
         l1path = os.path.join(l1dir, l1key + ".json")
+        data = None
         if os.path.exists(l1path) and os.environ.get("VERIF_NOCACHE") != "1":
-            data = json.load(open(l1path))
-            log("model-checking results and generated behaviours re-used (specification unchanged)")
-        else:
+            try:
+                data = json.load(open(l1path))
+                log("model-checking results and generated behaviours re-used (specification unchanged)")
+            except ValueError:
+                data = None
+        if data is None:
             mc = l1.model_check(tier, seed, wd, log)
             gen = l1.generate(tier, seed, wd, log)
             import apalache
@@ -97,10 +101,15 @@ def run_pipeline(tier, seed, log=print):
                 viol.append({"c": "C02.model", "kf": "", "at": 0, "ent": -1, "driver": "apalache:" + ob, "replay": "-"})
             data = {"runs": mc["runs"], "violations": viol, "scheds": gen, "lemma": lemma}
             for fn in os.listdir(l1dir):
-                os.remove(os.path.join(l1dir, fn)) if fn.endswith("-%s-%d.json" % (tier, seed)) else None
-            with open(l1path + ".tmp", "w") as f:
+                if fn.endswith("-%s-%d.json" % (tier, seed)) and fn != l1key + ".json":
+                    try:
+                        os.remove(os.path.join(l1dir, fn))
+                    except OSError:
+                        pass
+            tmp = "%s.%d.tmp" % (l1path, os.getpid())
+            with open(tmp, "w") as f:
                 json.dump(data, f)
-            os.replace(l1path + ".tmp", l1path)
+            os.replace(tmp, l1path)
         res["tlc"] = data["runs"]
         res["lemma"] = data.get("lemma", {})
         res["mc_viol"] = data["violations"]
